@@ -87,7 +87,7 @@ func (g *G) Chance(l string, num, den int) bool {
 }
 
 func (g *G) Bytes(l string, n int) []byte {
-	if n == 0 {
+	if n <= 0 {
 		return []byte{}
 	}
 	switch g.Pick(l+"_mode", 6) {
